@@ -251,8 +251,10 @@ static bool subscribed_to(Slot &r, const char *topic, uint64_t before_gseq) {
 // called on every observed state edge
 void orc_c19_edge(int slot, int from, int to) {
     Slot &x = W->slots[slot];
-    if (to == ST_RUNNING) x.occ_started.push_back(R->gseq);
-    if (to == ST_PAUSED || to == ST_STOPPED || to == ST_ZOMBIE) x.occ_stopped.push_back(R->gseq);
+    bool in_own_cb = !W->frames.empty() && W->frames.back().is_cb && W->frames.back().slot == slot;   // edge seen on entry of the module's own start/stop callback
+    uint64_t end = in_own_cb ? UINT64_MAX : R->gseq;
+    if (to == ST_RUNNING) x.occ_started.push_back(Slot::Occ{R->gseq, end, W->frames.size()});
+    if (to == ST_PAUSED || to == ST_STOPPED || to == ST_ZOMBIE) x.occ_stopped.push_back(Slot::Occ{R->gseq, end, W->frames.size()});
     if (!on("C19")) return;
     // whatever was pending in the mailbox of a module that stops is discarded with it
     if (to == ST_STOPPED || to == ST_ZOMBIE) for (auto &o : W->c19_obls) if (o.recipient == slot) o.done = true;
@@ -341,7 +343,7 @@ void orc_c19_delivery(Delivery &d) {
             if (e.sender_slot == d.slot && false) {}
             Slot &x = W->slots[e.sender_slot];
             auto &occ = ti == 3 ? x.occ_started : x.occ_stopped;
-            for (uint64_t g : occ) if (g >= r.reg_gseq) allowed++;
+            for (auto &o : occ) if (o.end >= r.reg_gseq) allowed++;   // (still in progress when the recipient was registered counts)
         }
         if ((size_t)got > allowed) {
             char sig[96];
